@@ -185,7 +185,7 @@ func judgeCase(c *vk.Ctx, fixgen string, work string, cs *caseT) {
 	os.WriteFile(filepath.Join(mod, "driver_test.go"), []byte(driverSource), 0o644)
 	os.WriteFile(filepath.Join(mod, "registry_test.go"), []byte(registrySource(exp, "scratch/"+filepath.ToSlash(rel))), 0o644)
 	os.WriteFile(filepath.Join(mod, "doc.go"), []byte("package scratch\n"), 0o644)
-	tout, terr := run(mod, "go", "test", "-count=1", "-run", "TestDriver", ".")
+	tout, terr := run(mod, "go", "test", "-v", "-count=1", "-run", "TestDriver", ".")
 	if m := reChecks.FindStringSubmatch(tout); m != nil {
 		n, _ := strconv.Atoi(m[1])
 		c.Count("disagreements_checked", int64(n))
